@@ -197,6 +197,44 @@ Example C07_fuel_nonvacuous :
 Proof. exact fuel_nonvacuous. Qed.
 Print Assumptions C07_fuel_nonvacuous.
 
+(* ---- hand-written byte handling around the third-party RADIUS parser (transport.go, coa.go) ---- *)
+(* isAuthenticReply: for every datagram and every pair of digests, no slice is out of range *)
+Theorem C07_radius_reply_auth_total : forall raw d_resp d_ma, is_crash (is_authentic_reply raw d_resp d_ma) = false.
+Proof. exact is_authentic_reply_total. Qed.
+Print Assumptions C07_radius_reply_auth_total.
+Theorem C07_coa_request_auth_total : forall raw d, is_crash (validate_request_auth raw d) = false.
+Proof. exact validate_request_auth_total. Qed.
+Print Assumptions C07_coa_request_auth_total.
+Theorem C07_coa_message_auth_total : forall raw d, is_crash (validate_message_auth raw d) = false.
+Proof. exact validate_message_auth_total. Qed.
+Print Assumptions C07_coa_message_auth_total.
+(* the CoA read loop trims the datagram to its declared length *after* radius.Parse accepted it; the trim is safe under
+   exactly what the third-party parser guarantees (declared length within the datagram) — that dependency is explicit *)
+Theorem C07_coa_trim_total_given_parse :
+  forall raw, 4 <= lenN raw -> (forall l, (s <- sl 2 4 raw;; u16at 0 s) = Ok l -> l <= lenN raw) ->
+  is_crash (coa_trim raw) = false.
+Proof. exact coa_trim_total. Qed.
+Print Assumptions C07_coa_trim_total_given_parse.
+Theorem C07_coa_trim_needs_parse : exists raw, coa_trim raw = Panic.
+Proof. exact coa_trim_needs_parse. Qed.
+Print Assumptions C07_coa_trim_needs_parse.
+(* CoA attribute accessors over any attribute list (hasServiceType, getEventTimestamp read 4-byte values;
+   resolveCoATarget, hasNonIdentificationAttrs, validateNASIdentifier are total functions by construction) *)
+Theorem C07_coa_service_type_total : forall value l, is_crash (has_service_type value l) = false.
+Proof. exact has_service_type_total. Qed.
+Print Assumptions C07_coa_service_type_total.
+Theorem C07_coa_event_timestamp_total : forall l, is_crash (event_timestamp l) = false.
+Proof. exact event_timestamp_total. Qed.
+Print Assumptions C07_coa_event_timestamp_total.
+(* internal/ipoe/dhcpv4.go getDHCPMessageType over any decoded option list (getDHCPOption is a total search) *)
+Theorem C07_ipoe_message_type_total : forall l, is_crash (ipoe_msg_type l) = false.
+Proof. exact ipoe_msg_type_total. Qed.
+Print Assumptions C07_ipoe_message_type_total.
+(* internal/l2tp/ppp.go dispatchPPPFrame in front of the dispatcher *)
+Theorem C07_l2tp_ppp_dispatch_total : forall cfg frame, is_crash (l2tp_dispatch_ppp Repaired cfg frame) = false.
+Proof. exact l2tp_dispatch_ppp_total. Qed.
+Print Assumptions C07_l2tp_ppp_dispatch_total.
+
 (* ---- "never make a handler run without bound": bounded worker pools / hand-off queues on the receive path
    (pppoe dhcp6Sem under the session lock, pppoe raKicks, ipoe l2gwChan), acquired with a non-blocking select ---- *)
 (* whatever the history of arrivals and worker completions, and for every pool size, no handler call blocks *)
